@@ -203,6 +203,11 @@ var families = []family{
 	// the same with END connected from the start: the Compile calls that fail are those with a step limit
 	{name: "W-recompile-step-limit", fe: "workflow", lenQ: 4, lenT: 5, prelude: []Op{WL("a", in("start")), WL("b", inND("a")), WB("a", "b", "end"), WA("end", in("b"))},
 		alpha: []Op{K(""), K("max"), K("name"), sv(WS("c", inF("a", "X")), "Y"), sv(WA("c"), "Y"), sv(WA("c"), "X"), WA("end", dep("c")), WB("a", "b", "end")}},
+	// a pass-through node that only has field-mapped connections (they tell nothing about its type) gets its type from the
+	// condition of a branch - declared before the first Compile, or after a Compile that failed for the missing type
+	{name: "W-branch-types-passthrough", fe: "workflow", lenQ: 3, lenT: 4,
+		prelude: []Op{WT("sS", "a", in("start")), WP("p", inFF("a", "Y", "")), WS("c", inNDF("p", "X"), inF("start", "Y")), WA("end", in("c"))},
+		alpha:   []Op{K(""), K("name"), K("max"), WB("p", "c", "end"), WBi("p", "c", "end"), WBa("p", "c", "end"), WA("p", dep("start")), WL("b", in("p"))}},
 	// interrupt points are given by node key
 	{name: "G-interrupt-keys", fe: "graph", lenQ: 3, lenT: 3, prelude: []Op{L("a"), L("b"), E("start", "a"), E("a", "b"), E("b", "end")},
 		alpha: []Op{K("ib=a"), K("ia=b"), K("ib=zz"), K("store+ia=zz"), K("ib=end"), K("ia=start"), K("ib=a+ia=zz"), K("ib=a,b+store"), K("ib=a,zz"), K(""), GN("c", subOpt(subGraphLine, "ib=a")),
